@@ -1,6 +1,7 @@
 package main
 
 import (
+	"sort"
 	"go/ast"
 	"go/token"
 	"go/types"
@@ -608,4 +609,101 @@ func isTableVar(f *Func, e ast.Expr) bool {
 	}
 	st, ok := sl.Elem().Underlying().(*types.Struct)
 	return ok && st.NumFields() == 2
+}
+
+
+// ruleErrorDiscipline: in the named functions (Func.Name() of the declared function; literals inside are included when
+// lits is set) every call whose callee returns an error binds it, tests it, and every path behind the failure returns an
+// error. exempt maps "<function>:<callee>" to the reason the call is excused (confirmed by reading).
+func ruleErrorDiscipline(c *Ctx, id, doc string, flow map[string][]string, exempt map[string]string, lits bool, minF, minN int) {
+	c.Rule(id, doc, func() {
+		errT := types.Universe.Lookup("error").Type()
+		n, nf := 0, 0
+		var rels []string
+		for rel := range flow {
+			rels = append(rels, rel)
+		}
+		sort.Strings(rels)
+		for _, rel := range rels {
+			for _, f := range c.funcsWithLits(rel) {
+				root := f.Root()
+				in := false
+				for _, nm := range flow[rel] {
+					if root.Name() == nm {
+						in = true
+					}
+				}
+				if !in || (f.Lit != nil && !lits) || f.Body == nil {
+					continue
+				}
+				// only literals that themselves return an error can "return the error"
+				if f.Lit != nil {
+					res := f.Type.Results
+					if res == nil || len(res.List) == 0 || !types.Identical(f.TypeOf(res.List[len(res.List)-1].Type), errT) {
+						continue
+					}
+				}
+				nf++
+				c.touch(f)
+				perCallee := map[string]int{}
+				for _, call := range f.AllCalls(f.Body, false) {
+					fn := f.Callee(call)
+					if fn == nil {
+						continue
+					}
+					sig, ok := fn.Type().(*types.Signature)
+					if !ok || sig.Results().Len() == 0 || !types.Identical(sig.Results().At(sig.Results().Len()-1).Type(), errT) {
+						continue
+					}
+					switch f.ParentOf(call).(type) {
+					case *ast.DeferStmt, *ast.GoStmt:
+						continue
+					case *ast.ExprStmt:
+						// releasing a resource on the way out is not a step whose failure changes the outcome
+						if fn.Name() == "Close" {
+							continue
+						}
+					case *ast.AssignStmt:
+						// `_ = x.Close()`: the same, with the discard spelled out
+						as := f.ParentOf(call).(*ast.AssignStmt)
+						blank := fn.Name() == "Close"
+						for _, l := range as.Lhs {
+							if id, isId := l.(*ast.Ident); !isId || id.Name != "_" {
+								blank = false
+							}
+						}
+						if blank {
+							continue
+						}
+					}
+					if fn.Pkg() != nil && (fn.Pkg().Path() == "fmt" || fn.Pkg().Path() == "errors") {
+						continue
+					}
+					// ctx.Err() asks a question; it is not a step that can fail
+					if fn.Name() == "Err" && fn.Pkg() != nil && fn.Pkg().Path() == "context" {
+						continue
+					}
+					key := root.Name() + ":" + fn.Name()
+					if why, ok := exempt[key]; ok {
+						c.Ok("error-handled:"+key, f, call, "exempt: %s", why)
+						continue
+					}
+					n++
+					perCallee[key]++
+					k := "error-handled:" + key + "#" + itoa(perCallee[key])
+					if r, isRet := f.ParentOf(call).(*ast.ReturnStmt); isRet && len(r.Results) == 1 {
+						c.Ok(k, f, call, "the call's results are returned as they are")
+						continue
+					}
+					if f.boundErrorIsReturned(call) {
+						c.Ok(k, f, call, "the error is bound and is what every following return hands back")
+						continue
+					}
+					c.Check(f.failureReturnsError(call), k, f, call, "a failure of %s is bound to a variable, tested, and every path behind the failure returns an error", fn.Name())
+				}
+			}
+		}
+		c.Pin("functions examined", nf, minF)
+		c.Pin("fallible calls", n, minN)
+	})
 }
